@@ -692,7 +692,8 @@ func describeTok(t Tok) string { return fmt.Sprintf("%s %q", kindName(t.Kind), t
 
 func cases(tier string) []Case {
 	thorough := tier == "thorough"
-	modes := []Mode{{All: true}, {List: []string{"secret"}}, {List: []string{"secret", "missing"}}}
+	// the last mode leaves encrypt_all at its default (true) while a list is configured: the list wins
+	modes := []Mode{{All: true}, {List: []string{"secret"}}, {List: []string{"secret", "missing"}}, {All: true, List: []string{"secret"}}}
 	seeds := []int{0, 1, 2, 3}
 	var out []Case
 	shapes := []int{0, 3, 7}
